@@ -3,7 +3,7 @@
    failing or panicking lines, and for every outcome of the load (ok, error, panic). *)
 From Coq Require Import List String NArith ZArith Bool.
 From AM Require Import Rust.Ast Gen.Records Gen.Deps Ref.Load Ref.Sys Proofs.SysGrows Proofs.SysFrame Proofs.SysRecs
-  Proofs.SysReload Tie.Records Tie.Erasure Tie.Static.
+  Proofs.SysReload Tie.Records Tie.Erasure Tie.Static Gen.Dirs Tie.Dirs.
 Import ListNotations.
 
 (* values already cached are untouched, whatever happens *)
@@ -58,3 +58,14 @@ Example C09_nonvacuous :
   nth 3 (map fst (snd r)) OutUnit = OutPanic /\ recs (fst r) = [] /\
   exists e, cache_get (fst r) (TI, "a") = Some e /\ cache_get (fst r) (TN, "n0") = None.
 Proof. vm_compute. repeat split. eexists. split; reflexivity. Qed.
+
+(* a fault while listing a directory is the load's fault: Directory::load and
+   RecursiveDirectory::load leave with `?` on an error of their own read_dir / select_ids /
+   sub_directories (nothing partial is built, hence nothing partial is cached); only the load of a
+   child directory may fail silently *)
+Theorem C09_code_directory_faults_propagate :
+  dir_load_wf Directory_load = true /\ rec_load_wf RecursiveDirectory_load = true /\
+  select_inner_wf select_ids_inner = true.
+Proof.
+  destruct dirs_as_specified as (H1 & _ & _ & _ & _ & H2 & H3). exact (conj H2 (conj H3 H1)).
+Qed.
